@@ -4,6 +4,7 @@ import (
 	"fmt"
 	"path/filepath"
 	"strings"
+	"unicode/utf16"
 
 	"verifsim/ref"
 	"verifsim/simdisk"
@@ -13,7 +14,7 @@ func init() {
 	Register(&Profile{Name: "containment", Prop: "C15", Weight: 10, Quick: 30000, Thorough: 800000, Sweep: c15SweepCount, Fn: containment})
 	SetMeta("C15", &Meta{
 		Level: "exploration",
-		Rule: "otherwise valid, fully repairable archives written by the reference writer (PAR2) / reference PAR1 builder whose declared files are missing, with declared names from a traversal corpus (absolute, .., a/../../x, ./.., ., empty, NUL-terminated-early, trailing slash, backslashes, very long, names that Clean to a parent) x every position in sets of 1 and 3 files (deterministic sweep), plus seeded archives with several hostile names composed from path components; Verify and Repair run on a simulated disk surrounded by a canary tree; also PAR2 Create with inputs outside the index file's tree under several spellings. Oracle: no write call whose resolved path lies outside the index directory's tree (PAR1: outside that directory), canary tree byte-identical, no panic, Create refuses outside inputs. Non-trivial: the archive parsed up to the hostile entry (gopar either rejected it with an error or attempted writes); distinct by (format, name class, position, set size, outcome).",
+		Rule:  "otherwise valid, fully repairable archives written by the reference writer (PAR2) / reference PAR1 builder whose declared files are missing, with declared names from a traversal corpus (absolute, .., a/../../x, ./.., ., empty, NUL-terminated-early, trailing slash, backslashes, very long, names that Clean to a parent) x every position in sets of 1 and 3 files (deterministic sweep), plus seeded archives with several hostile names composed from path components; Verify and Repair run on a simulated disk surrounded by a canary tree; also PAR2 Create with inputs outside the index file's tree under several spellings. Oracle: no write call whose resolved path lies outside the index directory's tree (PAR1: outside that directory), canary tree byte-identical, no panic, Create refuses outside inputs. Non-trivial: the archive parsed up to the hostile entry (gopar either rejected it with an error or attempted writes); distinct by (format, name class, position, set size, outcome).",
 		Assumptions: []string{
 			"the hostile archives are produced by the reference writer; its agreement with gopar for benign names is checked in every run (a benign twin of the same archive must repair)",
 			"reads outside the tree are counted as a probe, not as a violation (the statement binds create/modify/delete)",
@@ -137,6 +138,10 @@ func nameClass(n string) string {
 // hostile names and the size/hashes of the saved files, placed before
 // (1), after (2) or interleaved with (3) the saved entries, which then
 // carry benign names: a conformant PAR 1.0 index may list such entries.
+// c15UniNames, when set, makes the reference writer add Unicode
+// Filename packets carrying these names (by file position).
+var c15UniNames []string
+
 func buildHostile(d *simdisk.Mem, par1Set bool, names []string, contents [][]byte) string {
 	return buildHostileShadow(d, par1Set, names, contents, 0)
 }
@@ -196,6 +201,25 @@ func buildHostileShadow(d *simdisk.Mem, par1Set bool, names []string, contents [
 	vol = append(vol, idx...)
 	for _, e := range exps {
 		vol = append(vol, set.Recovery[e]...)
+	}
+	// optional Unicode Filename packets (PAR 2.0 spec, optional packet
+	// type "PAR 2.0\0UniFileN": file id + UTF-16LE name) declaring
+	// another name for some of the files
+	for i, nm := range c15UniNames {
+		if i >= len(files) || nm == "" {
+			continue
+		}
+		id := ref.FileID(files[i].Name, files[i].Data)
+		body := append([]byte(nil), id[:]...)
+		for _, u := range utf16.Encode([]rune(nm)) {
+			body = append(body, byte(u), byte(u>>8))
+		}
+		for len(body)%4 != 0 {
+			body = append(body, 0)
+		}
+		pk := ref.MakePacket(set.SetID, ref.TypeOf("PAR 2.0\x00UniFileN"), body)
+		idx = append(idx, pk...)
+		vol = append(vol, pk...)
 	}
 	d.Put(c15Dir+"/set.par2", idx)
 	d.Put(fmt.Sprintf("%s/set.vol00+%02d.par2", c15Dir, n), vol)
@@ -319,7 +343,26 @@ func containment(r *Run) {
 			r.Probe("par1-unsaved-hostile-entry")
 		}
 	}
+	if !par1Set && r.SweepCase < 0 && t.Bool(1, 4, "unicode-name-packets") {
+		// the hostile names are declared in Unicode Filename packets; the
+		// file description packets carry them too, or harmless names
+		c15UniNames = append([]string(nil), names...)
+		for i := range c15UniNames {
+			if !hostileAt[i] {
+				c15UniNames[i] = ""
+			}
+		}
+		if t.Bool(1, 2, "ascii-names-benign") {
+			for i := range names {
+				if hostileAt[i] {
+					names[i] = fmt.Sprintf("benign%d.dat", i)
+				}
+			}
+		}
+		r.Probe("unicode-filename-packets")
+	}
 	index := buildHostileShadow(d, par1Set, names, contents, shadow)
+	c15UniNames = nil
 	w := &World{Par1: par1Set, Disk: d, Dir: c15Dir, Base: "set", Index: index, S: 4}
 	// the index path as the caller spells it: absolute, relative to the
 	// archive directory, or relative to its parent (the base directory
